@@ -33,6 +33,15 @@ def run(ctx) -> None:
         ctx.guard("C01.pair-transfer", pair_transfer, dev)
         ctx.guard("C01.numbering-hook", numbering_hook, dev)
     ctx.guard("C01.pair-distribute", pair_distribute, "C01.pair-distribute")
+    # the Labware side of the comparison: its volume array is private (initial contents are copied, no alias escapes),
+    # and the composition it reports for mixed liquid is the volume-weighted mix of exactly the two liquids involved
+    from . import c02, c05
+
+    ctx.reuse("C01.labware-state", c02.ctor)
+    ctx.reuse("C01.labware-state", c02.alias)
+    ctx.reuse("C01.composition", c05.mix_args)
+    ctx.reuse("C01.composition", c05.mix_formula)
+    ctx.reuse("C01.composition", c05.local_write)
 
 
 # ------------------------------------------------------------------------ aspirate / dispense
